@@ -177,6 +177,18 @@ MUTANTS = [
     ("transpose-vjp-no-argsort", {"C01": "A16"}, [(NV, "axes = anp.argsort([axis % len(axes) for axis in axes])", "axes = [axis % len(axes) for axis in axes]")]),
     ("rollaxis-vjp-off-by-one", {"C01": "A16"}, [(NV, "anp.rollaxis(g, start - 1, axis) if start > axis else anp.rollaxis(g, start, axis + 1)", "anp.rollaxis(g, start, axis) if start > axis else anp.rollaxis(g, start, axis + 1)")]),
     ("norm-jvp-moveaxis-stale-adjust", {"C02": "A16.norm", "C01": "A16.norm"}, [(LA, "            roll = lambda a: anp.rollaxis(anp.rollaxis(a, col_axis, a.ndim), row_axis, a.ndim - 1)\n            # Roll matrix axes to their original position\n            unroll = lambda a: anp.rollaxis(anp.rollaxis(a, a.ndim - 2, row_axis), a.ndim - 1, col_axis)\n\n    check_implemented()\n    if ord in", "            roll = lambda a: anp.moveaxis(a, (row_axis, col_axis), (-2, -1))\n            # Roll matrix axes to their original position\n            unroll = lambda a: anp.moveaxis(a, (-2, -1), (row_axis, col_axis))\n\n    check_implemented()\n    if ord in")]),
+    ("stack-normalises-with-input-rank", {"C06": "A7.norm"}, [(NW, "    if axis < 0:\n        axis += result_ndim", "    if axis < 0:\n        axis += arrays[0].ndim")]),
+    ("defjvp-skips-unruled-argnums", {"C17": "A13.align", "C03": "A13.align"}, [(CO, "for argnum, g in zip(argnums, gs))\n\n    defjvp_argnums(fun, jvp_argnums)\n\n\ndef translate_jvp", "for argnum, g in zip(argnums, gs) if argnum in jvps_dict)\n\n    defjvp_argnums(fun, jvp_argnums)\n\n\ndef translate_jvp")]),
+    ("inner-prod-memory-order-ravel", {"C13": "A9.layout"}, [(NS, "return np.real(np.dot(np.conj(np.ravel(x)), np.ravel(y)))", "return np.real(np.vdot(np.ravel(x, order=\"K\"), np.ravel(y, order=\"K\")))")]),
+    ("ndmin-vjp-bare-squeeze", {"C05": "A3.squeeze", "C01": "A3.squeeze"}, [(NV, "return lambda g: anp.squeeze(g, axis=tuple(range(ndmin - scarray_ndim)))", "return lambda g: anp.squeeze(g)")]),
+    ("repeated-axes-guard-weakened", {"C15": "A6.guardfn"}, [(FF, "def check_no_repeated_axes(axes):\n    axes_set = set(axes)\n    if len(axes) != len(axes_set):\n        raise NotImplementedError(\"FFT gradient for repeated axes not implemented.\")", "def check_no_repeated_axes(axes, s=None):\n    if s is None:\n        s = [None] * len(axes)\n    lengths = {}\n    for axis, n in zip(axes, s):\n        if lengths.setdefault(axis, n) != n:\n            raise NotImplementedError(\"FFT gradient for repeated axes with different s not implemented.\")")]),
+    ("toposort-identity-comparison", {"C03": "A13.topo"}, [("autograd/util.py", "            if child_counts[parent] == 1:", "            if child_counts[parent] is 1:")]),
+    ("nondiff-methods-rewrapped", {"C14": "A1.methods", "C06": "A1.methods"}, [(NB, "for method_name in nondiff_methods + diff_methods:\n    setattr(ArrayBox, method_name, anp.__dict__[method_name])", "for method_name in nondiff_methods:\n    setattr(ArrayBox, method_name, notrace_primitive(getattr(np.ndarray, method_name)))\nfor method_name in diff_methods:\n    setattr(ArrayBox, method_name, anp.__dict__[method_name])"), (NB, "from autograd.extend import Box, primitive", "from autograd.extend import Box, notrace_primitive, primitive")]),
+    ("einsum-vjp-no-unbroadcast", {"C01": "A3.vjp", "C05": "A3.vjp", "C04": "A3.vjp"}, [(NV, "            return unbroadcast(anp.einsum(new_subscripts, *new_operands), result_meta)", "            return match_complex(operands[op_num], anp.einsum(new_subscripts, *new_operands))")]),
+    ("deriv-scalar-seed", {"C16": "A2.tuple"}, [(DO, "    return _make_jvp(fun, x)(vspace(x).ones())[1]", "    return _make_jvp(fun, x)(1.0)[1]")]),
+    ("unpermuter-aliases-captured-permutation", {"C10": "A9.inplace"}, [(NV, "    unsort = anp.zeros(len(permutation), dtype=int)\n    unsort[permutation] = list(range(len(permutation)))", "    unsort = anp.asarray(permutation, dtype=int)\n    unsort[permutation] = anp.arange(len(permutation))")]),
+    ("cumsum-reverse-by-slicing-tuple", {"C01": "A7"}, [(NV, "def reverse_axis(x, axis):\n    x = x.swapaxes(axis, 0)\n    x = x[::-1, ...]\n    return x.swapaxes(0, axis)", "def reverse_axis(x, axis):\n    return x[(slice(None),) * axis + (slice(None, None, -1),)]")]),
+    ("find-top-collect-then-filter", {"C08": "A12.top"}, [(TR, "            if trace > top_trace:\n                top_boxes = [(argnum, arg)]\n                top_trace = trace\n                top_node_type = type(arg._node)\n            elif trace == top_trace:\n                top_boxes.append((argnum, arg))", "            top_boxes.append((argnum, arg))\n            if trace > top_trace:\n                top_trace = trace\n                top_node_type = type(arg._node)")]),
     ("container-space-loses-subval", {"C12": "A1.spaces"}, [(BU, "    def _subval(self, xs, idx, x):\n        d = dict(xs.items())\n        d[idx] = x\n        return d\n", "")]),
 ]
 
@@ -219,6 +231,10 @@ BENIGN = [
     ("whole-package-reprinted-with-ast-unparse", [("<reprint>", "", "")]),
     ("swapaxes-vjp-same-order", [(NV, "lambda g: anp.swapaxes(g, axis2, axis1)", "lambda g: anp.swapaxes(g, axis1, axis2)")]),
     ("moveaxis-vjp-keywords", [(NV, "lambda g: anp.moveaxis(g, destination, source)", "lambda g: anp.moveaxis(g, source=destination, destination=source)")]),
+    ("methods-bound-with-getattr", [(NB, "    setattr(ArrayBox, method_name, anp.__dict__[method_name])", "    setattr(ArrayBox, method_name, getattr(anp, method_name))")]),
+    ("repeated-axes-guard-rewritten", [(FF, "    axes_set = set(axes)\n    if len(axes) != len(axes_set):", "    if len(set(axes)) < len(axes):")]),
+    ("squeeze-positional-axis", [(NV, "return lambda g: anp.squeeze(g, axis=tuple(range(ndmin - scarray_ndim)))", "return lambda g: anp.squeeze(g, tuple(range(ndmin - scarray_ndim)))")]),
+    ("stack-normalise-with-modulo", [(NW, "    if axis < 0:\n        axis += result_ndim", "    axis = axis % result_ndim")]),
     ("where-with-zeros-like", [(NV, "    lambda ans, c, x=None, y=None: unbroadcast_f(x, lambda g: anp.where(c, g, anp.zeros(g.shape))),", "    lambda ans, c, x=None, y=None: unbroadcast_f(x, lambda g: anp.where(c, g, anp.zeros_like(g))),")]),
 ]
 
